@@ -619,19 +619,42 @@ Fixpoint zt_list (n : znode) : list N :=
   (match z with Some x => [x] | None => [] end) ++
   (fix go (cs : list (label * znode)) : list N := match cs with [] => [] | (_, c) :: cs' => zt_list c ++ go cs' end) cs.
 
-Inductive zop := ZIns (p : name) (z : N) | ZRem (p : name).
-Fixpoint zt_run (i : N) (ops : list zop) (acc : znode * list (N * N)) : znode * list (N * N) :=
+(* Roots: one tree per class, IN apart from the others (a hash map keyed by class) *)
+Record zroots := mkRoots { zr_in : znode; zr_others : list (N * znode) }.
+Definition zroots_empty := mkRoots zempty [].
+Fixpoint cls_get (c : N) (l : list (N * znode)) : option znode :=
+  match l with [] => None | (k, n) :: l' => if k =? c then Some n else cls_get c l' end.
+Fixpoint cls_set (c : N) (n : znode) (l : list (N * znode)) : list (N * znode) :=
+  match l with [] => [(c, n)] | (k, x) :: l' => if k =? c then (k, n) :: l' else (k, x) :: cls_set c n l' end.
+Definition zr_get (c : N) (r : zroots) : option znode := if c =? class_in then Some (zr_in r) else cls_get c (zr_others r).
+Definition zr_set (c : N) (n : znode) (r : zroots) : zroots :=
+  if c =? class_in then mkRoots n (zr_others r) else mkRoots (zr_in r) (cls_set c n (zr_others r)).
+(* ZoneTree::{find_zone, get_zone, insert_zone, remove_zone, iter_zones} *)
+Definition zr_find (c : N) (q : name) (r : zroots) : option N := match zr_get c r with Some n => zt_find n q | None => None end.
+Definition zr_getz (c : N) (p : name) (r : zroots) : option N := match zr_get c r with Some n => zt_get n p | None => None end.
+Definition zr_insert (c : N) (p : name) (z : N) (r : zroots) : outcome zroots :=
+  let n := match zr_get c r with Some n => n | None => zempty end in      (* get_or_insert *)
+  match zt_insert p z n with Ok n' => Ok (zr_set c n' r) | Err e => Err e | Panic x => Panic x | OutOfFuel => OutOfFuel end.
+Definition zr_remove (c : N) (p : name) (r : zroots) : outcome zroots :=
+  match zr_get c r with
+  | None => Err E_ZoneDoesNotExist
+  | Some n => match zt_remove p n with Ok n' => Ok (zr_set c n' r) | Err e => Err e | Panic x => Panic x | OutOfFuel => OutOfFuel end
+  end.
+Definition zr_list (r : zroots) : list N := zt_list (zr_in r) ++ flat_map (fun kn => zt_list (snd kn)) (zr_others r).
+
+Inductive zop := ZIns (c : N) (p : name) (z : N) | ZRem (c : N) (p : name).
+Fixpoint zt_run (i : N) (ops : list zop) (acc : zroots * list (N * N)) : zroots * list (N * N) :=
   match ops with
   | [] => acc
   | o :: ops' =>
       let '(t, errs) := acc in
-      let r := match o with ZIns p z => zt_insert p z t | ZRem p => zt_remove p t end in
+      let r := match o with ZIns c p z => zr_insert c p z t | ZRem c p => zr_remove c p t end in
       zt_run (i + 1) ops' (match r with Ok t' => (t', errs) | Err e => (t, errs ++ [(i, e)]) | _ => (t, errs) end)
   end.
-Definition c08_tree_run (ops : list zop) : znode * list (N * N) := zt_run 0 ops (zempty, []).
-Definition c08_tree_find := zt_find.
-Definition c08_tree_get := zt_get.
-Definition c08_tree_list := zt_list.
+Definition c08_tree_run (ops : list zop) : zroots * list (N * N) := zt_run 0 ops (zroots_empty, []).
+Definition c08_tree_find := zr_find.
+Definition c08_tree_get := zr_getz.
+Definition c08_tree_list := zr_list.
 
 (* what the driver calls *)
 Definition c08_run (ops : list op) : node * list (N * N) := let s := run_ops ops in (s_comm s, s_errs s).
